@@ -51,6 +51,9 @@ func run(c *lib.Ctx) error {
 		return replayStored(c, dir)
 	}
 	c.Set("rule", "a G case is one TLC behaviour replayed on the real Activate/Serve, distinct by its labelled step sequence, counted when it has >= 4 steps; a V case is one free-running race, distinct by its recorded event sequence")
+	if os.Getenv("C27_ONLY") == "V" { // development switch: races only
+		return judgeRaces(c, dir, runRaces(c))
+	}
 	ns := c.Pick(2, 3)
 	crash := c.Pick(1, 0)
 	jobs := []*tlcJob{
